@@ -381,7 +381,10 @@ func RunC13(c *core.Ctx) {
 					n := len(sig) / 2
 					variants := [][]byte{{}, sig[:1], sig[:2], sig[:n-1], sig[:n], sig[:n+1], sig[:len(sig)-2], append(append([]byte{}, sig...), 0, 0),
 						append(append(append([]byte{}, sig[:n]...), 0, 0), sig[n:]...), append(append([]byte{0, 0}, sig[:n]...), sig[n:]...),
-						append(append([]byte{}, sig...), sig...), append(append([]byte{}, sig...), 0)}
+						append(append([]byte{}, sig...), sig...), append(append([]byte{}, sig...), 0),
+						// the same r and s, each zero-padded in front (the same integers in a longer encoding)
+						append(append(append([]byte{0}, sig[:n]...), 0), sig[n:]...),
+						append(append(append([]byte{0, 0}, sig[:n]...), 0, 0), sig[n:]...)}
 					for _, v := range variants {
 						s2 := s1
 						s2.Signature = v
